@@ -147,6 +147,7 @@ func (l *Lexer) PreNextToken() error {
 	}
 
 	for {
+		verifTick()
 		ch := l.GetCurrentChar()
 		// when current char are spaces, skip them directly
 		if IsWhiteSpace(ch) {
